@@ -6,6 +6,7 @@ Open Scope Z_scope.
 
 Section FrameProofs.
   Variable uri_none : bytes -> bool.
+  Variable cert_class : bytes -> N.
   Variable asym_for : bytes -> bytes -> option algo.
 
   Lemma vd_with_no_panic st a h b :
@@ -45,7 +46,7 @@ Section FrameProofs.
 
   (* readChunk never panics, whatever the frame, in every state whose algorithms are in place *)
   Theorem read_frame_no_panic st b p :
-    state_ok asym_for st -> snd (read_frame uri_none asym_for true st b) <> Panic p.
+    state_ok asym_for st -> snd (read_frame uri_none cert_class asym_for true st b) <> Panic p.
   Proof.
     intros (Hcap & Hinst & Hopen & Hasym). unfold read_frame.
     destruct (Z.ltb_spec (f_cap st) 12); [lia|].
@@ -56,7 +57,8 @@ Section FrameProofs.
       destruct (uri_none uri) eqn:Eu.
       + apply finish_no_panic. intros q.
         apply vd_with_no_panic; [exact Hd|]. now apply Hopen.
-      + destruct (asym_for uri cert) as [al|] eqn:Ea; [|discriminate].
+      + destruct (cert_class cert =? 0)%N; [discriminate|]. destruct (cert_class cert =? 1)%N; [discriminate|].
+        destruct (asym_for uri cert) as [al|] eqn:Ea; [|discriminate].
         apply finish_no_panic. intros q. apply vd_with_no_panic; [exact Hd|]. cbn. now apply Hasym with uri cert.
     - destruct (bytes_eqb (h_type h) MT_CLO); [discriminate|].
       destruct (rev (find_insts st (h_chan h))) as [|a l] eqn:El; [discriminate|].
@@ -73,7 +75,7 @@ Section FrameProofs.
   Lemma finish_state_ok h st' r : state_ok asym_for st' -> state_ok asym_for (fst (finish h st' r)).
   Proof. intros H. destruct (finish_state h st' r) as [->|[n ->]]; [exact H|now apply state_ok_with_last]. Qed.
 
-  Theorem read_frame_state_ok st b : state_ok asym_for st -> state_ok asym_for (fst (read_frame uri_none asym_for true st b)).
+  Theorem read_frame_state_ok st b : state_ok asym_for st -> state_ok asym_for (fst (read_frame uri_none cert_class asym_for true st b)).
   Proof.
     intros Hok. pose proof Hok as (Hcap & Hinst & Hopen & Hasym). unfold read_frame.
     destruct (f_cap st <? 12); [exact Hok|].
@@ -83,7 +85,9 @@ Section FrameProofs.
       destruct (asym_fields b) as [[uri cert]|]; [|exact Hok].
       destruct (uri_none uri) eqn:Eu.
       + apply finish_state_ok. repeat split; cbn [f_cap f_insts f_opening f_mode]; assumption.
-      + destruct (asym_for uri cert) as [al|] eqn:Ea.
+      + destruct (cert_class cert =? 0)%N; [cbn [fst]; repeat split; cbn [f_cap f_insts f_opening f_mode]; assumption|].
+        destruct (cert_class cert =? 1)%N; [cbn [fst]; repeat split; cbn [f_cap f_insts f_opening f_mode]; assumption|].
+        destruct (asym_for uri cert) as [al|] eqn:Ea.
         * apply finish_state_ok. repeat split; cbn [f_cap f_insts f_opening f_mode]; try assumption.
           intros oa' [= <-]. cbn. now apply Hasym with uri cert.
         * cbn [fst]. repeat split; cbn [f_cap f_insts f_opening f_mode]; assumption.
@@ -177,6 +181,7 @@ Qed.
 Open Scope Z_scope.
 Section Secured.
   Variable uri_none : bytes -> bool.
+  Variable cert_class : bytes -> N.
   Variable asym_for : bytes -> bytes -> option algo.
 
   Definition verified_by (st : fstate) (pn : bool) (al : algo) (h : chunk_hdr) (b d : bytes) : Prop :=
@@ -217,7 +222,7 @@ Section Secured.
     (exists c l, In (c, l) (f_insts st) /\ In (Some al) l) \/ f_opening st = Some (Some al) \/ (exists u ce, asym_for u ce = Some al).
 
   Theorem read_frame_secured st b c :
-    f_mode st <> SNone -> snd (read_frame uri_none asym_for true st b) = Ok c ->
+    f_mode st <> SNone -> snd (read_frame uri_none cert_class asym_for true st b) = Ok c ->
     exists h al pn d, chunk_decode b = Some h /\ candidate st b al /\ verified_by st pn al h b d.
   Proof.
     intros Hm. unfold read_frame.
@@ -230,7 +235,8 @@ Section Secured.
       + intros H. apply finish_ok in H. destruct H as [d H].
         apply vd_with_secured in H; [|exact Hm]. destruct H as (al & -> & Hv).
         exists h, al, true, d. split; [reflexivity|]. split; [right; left; exact Eo | exact Hv].
-      + destruct (asym_for uri cert) as [al|] eqn:Ea; [|discriminate].
+      + destruct (cert_class cert =? 0)%N; [discriminate|]. destruct (cert_class cert =? 1)%N; [discriminate|].
+        destruct (asym_for uri cert) as [al|] eqn:Ea; [|discriminate].
         intros H. apply finish_ok in H. destruct H as [d H].
         apply vd_with_secured in H; [|exact Hm]. destruct H as (al' & [= <-] & Hv).
         exists h, al, false, d. split; [reflexivity|]. split; [right; right; eauto | exact Hv].
@@ -249,12 +255,13 @@ Section Secured.
   Lemma finish_mode h st' r : f_mode (fst (finish h st' r)) = f_mode st'.
   Proof. destruct (finish_state h st' r) as [->|[n ->]]; reflexivity. Qed.
 
-  Lemma read_frame_mode st b : f_mode (fst (read_frame uri_none asym_for true st b)) = f_mode st.
+  Lemma read_frame_mode st b : f_mode (fst (read_frame uri_none cert_class asym_for true st b)) = f_mode st.
   Proof.
     unfold read_frame. destruct (f_cap st <? 12); [reflexivity|]. destruct (chunk_decode b) as [h|]; [|reflexivity].
     destruct (bytes_eqb (h_type h) MT_OPN).
     - destruct (f_opening st); [|reflexivity]. destruct (asym_fields b) as [[uri cert]|]; [|reflexivity].
-      destruct (uri_none uri); [now rewrite finish_mode|]. destruct (asym_for uri cert); [now rewrite finish_mode|reflexivity].
+      destruct (uri_none uri); [now rewrite finish_mode|]. destruct (cert_class cert =? 0)%N; [reflexivity|]. destruct (cert_class cert =? 1)%N; [reflexivity|].
+      destruct (asym_for uri cert); [now rewrite finish_mode|reflexivity].
     - destruct (bytes_eqb (h_type h) MT_CLO); [reflexivity|]. destruct (rev (find_insts st (h_chan h))); [reflexivity|now rewrite finish_mode].
   Qed.
 End Secured.
@@ -262,6 +269,7 @@ End Secured.
 (* ---- the sequence check at frame level ---- *)
 Section FrameSeq.
   Variable uri_none : bytes -> bool.
+  Variable cert_class : bytes -> N.
   Variable asym_for : bytes -> bytes -> option algo.
 
   Definition seq_post (last : option N) (x : fstate * res chunk) : Prop :=
@@ -276,12 +284,13 @@ Section FrameSeq.
     destruct (seq_ok (f_last st') s) eqn:E; cbn [snd fst]; [|reflexivity]. cbn. auto.
   Qed.
 
-  Lemma read_frame_seq_post g st b : seq_post (f_last st) (read_frame uri_none asym_for g st b).
+  Lemma read_frame_seq_post g st b : seq_post (f_last st) (read_frame uri_none cert_class asym_for g st b).
   Proof.
     unfold read_frame. destruct (f_cap st <? 12); [reflexivity|]. destruct (chunk_decode b) as [h|]; [|reflexivity].
     destruct (bytes_eqb (h_type h) MT_OPN).
     - destruct (f_opening st); [|reflexivity]. destruct (asym_fields b) as [[uri cert]|]; [|reflexivity].
       destruct (uri_none uri); [exact (finish_seq_post _ _ _)|].
+      destruct (cert_class cert =? 0)%N; [reflexivity|]. destruct (cert_class cert =? 1)%N; [reflexivity|].
       destruct (asym_for uri cert) as [al|]; [|reflexivity].
       exact (finish_seq_post _ _ _).
     - destruct (bytes_eqb (h_type h) MT_CLO); [reflexivity|]. destruct (rev (find_insts st (h_chan h))); [reflexivity|].
@@ -291,7 +300,7 @@ Section FrameSeq.
   Fixpoint frame_seqs (st : fstate) (bs : list bytes) : list N :=
     match bs with
     | [] => []
-    | b :: r => let x := read_frame uri_none asym_for true st b in
+    | b :: r => let x := read_frame uri_none cert_class asym_for true st b in
                 match snd x with Ok c => ck_seq c :: frame_seqs (fst x) r | _ => frame_seqs (fst x) r end
     end.
 
@@ -299,7 +308,7 @@ Section FrameSeq.
   Proof.
     induction bs as [|b r IH]; intros st; cbn [frame_seqs]; [exact I|].
     pose proof (read_frame_seq_post true st b) as H. unfold seq_post in H.
-    destruct (snd (read_frame uri_none asym_for true st b)) as [c|e|p].
+    destruct (snd (read_frame uri_none cert_class asym_for true st b)) as [c|e|p].
     - destruct H as [H1 H2]. cbn [incr_from]. split; [exact H1|]. rewrite <- H2. apply IH.
     - rewrite <- H. apply IH.
     - rewrite <- H. apply IH.
